@@ -185,7 +185,6 @@ impl<Front: SocketHandler> RelayProxyProtocol<Front> {
             };
 
             self.header_size = Some(read_sz);
-            self.frontend_buffer.consume(sz);
             return SessionResult::Continue;
         }
 
